@@ -294,12 +294,12 @@ fn run(run: &mut Run) {
     run.assume("hash seeds cannot be chosen: detection is probabilistic per input (>= 1 - 2^-5 for a two-key map within one process), the verdict over hundreds of inputs effectively deterministic; on a deterministic tree the check cannot fire");
     run.min_nontrivial = 100;
     for (name, f) in CONVS {
-        let n = run.tier.pick(1_500, 30_000);
+        let n = run.tier.pick(5_000, 50_000);
         let c = repeat_case(name, *f);
         run.explore(name, n, 900, &c);
     }
     for (name, f) in CONVS {
-        let n = run.tier.pick(120, 1_500) as usize;
+        let n = run.tier.pick(300, 2_000) as usize;
         cross_process(run, name, *f, n, 900);
     }
 }
